@@ -163,4 +163,15 @@ Proof.
   - exact A'.
 Qed.
 
+Lemma reach_run c nv s ops s' : reach c nv s -> run H s ops = Ok s' -> reach c nv s'.
+Proof.
+  revert s; induction ops as [|o ops IH]; intros s R E; cbn [run] in E.
+  - congruence.
+  - destruct (step s o) as [s1| |] eqn:E1; cbn [bind] in E; try discriminate.
+    eapply IH; [|exact E]. eapply r_step; eauto.
+Qed.
+
+Lemma reach0_reach c nv s : reach0 H c nv s -> reach c nv s.
+Proof. intros (ops & E). eapply reach_run; [apply r_init|exact E]. Qed.
+
 End TH.
